@@ -106,6 +106,18 @@ theorem mapM_pyGet (gs : List GridTag) (l : List Int) (sel : List Nat) (gs' : Li
             subst this
             simp [pick, hgk]
 
+theorem normDim_ofNat (n i : Nat) (h : i < n) : normDim n (Int.ofNat i) = some i := by
+  unfold normDim
+  simp [h]
+
+theorem mapM_normDim_ofNat (n : Nat) (sel : List Nat) (h : ∀ i ∈ sel, i < n) :
+    (sel.map Int.ofNat).mapM (normDim n) = some sel := by
+  induction sel with
+  | nil => rfl
+  | cons i is ih =>
+    rw [List.map_cons, List.mapM_cons, normDim_ofNat n i (h i (by simp)), ih (fun j hj => h j (by simp [hj]))]
+    rfl
+
 theorem alignedV_plain (a0 : Nat) (t : Raw) : AlignedV a0 (.one (.plain t)) := by
   simp [AlignedV, AlignedS]
 
@@ -133,7 +145,32 @@ theorem alignedV_getitemCore (a0 : Nat) (f : Bool) (a : Nat) (t : Raw) (gs : Lis
     apply alignedV_ite _ _ _ _ (alignedV_plain a0 data)
     cases first with
     | ell => simp [goodIx] at hfirst
-    | mask m => simp [goodIx] at hfirst
+    | mask m =>
+      simp only [gridSel]
+      simp only [indexFirst] at hfst
+      split at hfst
+      · cases hfst
+      · rename_i hlen
+        cases hfst
+        have hml : m.length = n0 := by omega
+        have hsel : ∀ i ∈ (List.range n0).filter (fun i => m.getD i false), i < gs.length := by
+          intro i hi
+          rw [List.mem_filter, List.mem_range] at hi
+          omega
+        rw [hml]
+        cases hg : (((List.range n0).filter (fun i => m.getD i false)).map Int.ofNat).mapM (pyGet gs) with
+        | none => exact alignedV_err a0 _
+        | some gs' =>
+          simp only [Option.map_some]
+          apply alignedV_ite _ _ _ _ (alignedV_plain a0 _)
+          apply alignedV_ite _ _ _ _ (alignedV_plain a0 _)
+          have hgs := mapM_pyGet gs _ _ gs' (mapM_normDim_ofNat gs.length _ hsel) hg
+          subst hgs
+          apply alignedV_makeInstance a0 f a _ _ hax
+          · simp only [List.headD_cons]
+            exact pick_length gs _ hsel
+          · simp only []
+            rw [hprov, pick_map]
     | int i =>
       simp only [gridSel]
       cases hg : pyGet gs i with
@@ -231,19 +268,22 @@ theorem alignedV_batchGetitem (a0 : Nat) (f : Bool) (a : Nat) (t : Raw) (gs : Li
     AlignedV a0 (batchGetitem f a t gs idx) := by
   cases idx with
   | single ix =>
-    simp only [goodOp] at hgood
     cases ix with
-    | ell => simp [goodIx] at hgood
-    | mask m => simp [goodIx] at hgood
+    | ell =>
+      simp only [batchGetitem]
+      exact alignedV_makeInstance a0 f a t gs hal.2.2.2 hal.1 hal.2.2.1
+    | mask m =>
+      simp only [batchGetitem, normIndex]
+      exact alignedV_getitemCore a0 f a t gs _ [] true hal (by simp) rfl
     | int i =>
       simp only [batchGetitem, normIndex]
-      exact alignedV_getitemCore a0 f a t gs _ [] false hal (by simp) hgood
+      exact alignedV_getitemCore a0 f a t gs _ [] false hal (by simp) rfl
     | slice sa sb st =>
       simp only [batchGetitem, normIndex]
-      exact alignedV_getitemCore a0 f a t gs _ [] true hal (by simp) hgood
+      exact alignedV_getitemCore a0 f a t gs _ [] true hal (by simp) rfl
     | list l =>
       simp only [batchGetitem, normIndex]
-      exact alignedV_getitemCore a0 f a t gs _ [] true hal (by simp) hgood
+      exact alignedV_getitemCore a0 f a t gs _ [] true hal (by simp) rfl
   | tuple l =>
     simp only [goodOp, List.all_eq_true] at hgood
     simp only [batchGetitem, normIndex, keepFirstEll_noEll l false hgood]
